@@ -1468,6 +1468,29 @@ def pred_c19(line, st):
         c = int(a[0])
         if int(r[0]) != (16 + (c & 15)) << ((c >> 4) + 6):
             return "iterated S2K count octet %d decodes to %s" % (c, r[0])
+    elif op == "pgp.s2k.key":
+        # independent reference: RFC 4880 section 3.7.1.2/3.7.1.3 on top of hashlib
+        import hashlib
+        it, c, sklen, hlen = int(a[0]), int(a[1]), int(a[2]), int(a[3])
+        salt, pw = hexb(a[4]), hexb(a[5])
+        alg = {"alg2": "sha1", "alg8": "sha256", "alg9": "sha384", "alg10": "sha512", "alg11": "sha224"}[tag_of(a)]
+        key = hexb(r[1])
+        st["s2k_cases"] = st.get("s2k_cases", 0) + 1
+        if len(salt) != 8:
+            if key: return "S2KCompute produced a key from a salt of %d octets" % len(salt)
+            return None
+        data = salt + pw
+        total = len(data)
+        if it:
+            total = max(total, (16 + (c & 15)) << ((c >> 4) + 6))
+            if len(data) > (16 + (c & 15)) << ((c >> 4) + 6): st["s2k_long"] = st.get("s2k_long", 0) + 1
+        stream = (data * (total // len(data) + 1))[:total]
+        want = b""; j = 0
+        while len(want) < sklen:
+            want += hashlib.new(alg, b"\0" * j + stream).digest(); j += 1
+        if key != want[:sklen]:
+            return ("S2K key differs from RFC 4880 3.7.1.%d (%s, count octet %d, %d octets of salt+passphrase, key length %d)"
+                    % (3 if it else 2, alg, c, len(data), sklen))
     elif op == "pgp.armor.enc":
         st.setdefault("armor", {})[r[0]] = (a[0], a[3], a[1])
     elif op == "pgp.armor.dec" and tag_of(a) == "orig" and a[0] in st.get("armor", {}):
@@ -1487,11 +1510,14 @@ PROPS["C19"] = dict(
                  ("Tmcg.C19.len_forms_disjoint", "full"), ("Tmcg.C19.partial_len_pow2", "full"),
                  ("Tmcg.C19.mpi_roundtrip", "full"), ("Tmcg.C19.armor_roundtrip", "full"),
                  ("Tmcg.C19.armor_rejects_bad_checksum", "full"), ("Tmcg.C19.s2k_count_table", "full"),
-                 ("Tmcg.C19.string_roundtrip", "full")],
+                 ("Tmcg.C19.string_roundtrip", "full"),
+                 ("Tmcg.C19.s2k_full_input_once", "full"), ("Tmcg.C19.s2k_feed_length", "full"),
+                 ("Tmcg.C19.s2k_feed_periodic", "full"), ("Tmcg.C19.s2k_context_preload", "full"),
+                 ("Tmcg.C19.s2k_key_length", "full")],
     predicate=pred_c19,
-    level_text="Lean 4 theorems about a model of the OpenPGP encodings written from RFC 4880: radix-64 round trip and line length, CRC-24 = polynomial division with the generated constants, body lengths (all n < 2^32, forms disjoint, partial lengths powers of two), MPIs, strings, armor round trip and checksum rejection for the four armor types, all 256 iterated-S2K count octets. "
+    level_text="Lean 4 theorems about a model of the OpenPGP encodings written from RFC 4880: radix-64 round trip and line length, CRC-24 = polynomial division with the generated constants, body lengths (all n < 2^32, forms disjoint, partial lengths powers of two), MPIs, strings, armor round trip and checksum rejection for the four armor types, all 256 iterated-S2K count octets, the octet stream every S2K hash context is fed (full salt+passphrase at least once, periodic, count or input length, j zero octets of preload) and the key length. "
                "Correspondence: the real static methods vs the model byte for byte (encoders on all boundary sizes; decoders also on arbitrary and mutated input); the predicate judges emitted octets by an independent reference (Python base64, a reference CRC-24, the RFC formulas). "
-               "Partial: the packet emitters (signature, key, PKESK, SKESK, literal, SEIPD, AEAD ...), fingerprints/key ids and the KDF loop are not modelled yet; GnuPG as second oracle was used once by hand (gpg --dearmor accepted the emitted armors) and is not part of the check.",
+               "Partial: the packet emitters (signature, key, PKESK, SKESK, literal, SEIPD, AEAD ...), fingerprints/key ids are not modelled yet (the S2K streams are: the digests themselves are libgcrypt's, checked against hashlib by the predicate); GnuPG as second oracle was used once by hand (gpg --dearmor accepted the emitted armors) and is not part of the check.",
     level_note=LEVEL_NOTE,
     assumptions=["partial: packet emitters beyond the primitive encodings are not yet covered",
                  "known finding F14: the armor of an empty octet string is emitted but not accepted by ArmorDecode"],
